@@ -69,6 +69,8 @@ def random_classes(ctx, plan):
                 yield G.mixed_hydrogens(rng)
             elif cls == "M11hub":
                 yield G.hub(rng)
+            elif cls == "M12rings":
+                yield G.ring_salts(rng)
             else:
                 raise ValueError(cls)
 
